@@ -28,6 +28,8 @@ PROPS = {
             fam("dag", g(gen.fam_dag), 250, 6000, view="values", rule="distinct (topology, shapes, flags) of random programs with fan-out >= 2 and a tracked leaf; plus self-product chains to depth 45/60"),
             fam("dag-float", g(gen.fam_dag, mode="float"), 120, 3000, mode="float", view="values", rule="as dag, non-ring operations included"),
             fam("customlog", g(gen.fam_customlog), 80, 2000, view="values", rule="distinct Array::op programs"),
+            fam("selfviews", g(gen.fam_selfviews), 60, 1500, view="values", rule="distinct (shape, op, kind of second handle of the same array: clone / column / row / flat view / sum(0), operand order, flag state), then a product further down"),
+            fam("selfviews-float", g(gen.fam_selfviews, mode="float"), 30, 600, mode="float", view="values", rule="as above incl. div"),
             fam("ewise-grad", g(gen.fam_ewise, grads=True), 60, 1500, view="values", rule="distinct (op, shape pair)"),
         ],
         "assumptions": [F64_NOTE, SEED_NOTE, "user closures given to Array::op are lawful (the harness's are, by inspection and by correspondence)"],
@@ -36,6 +38,7 @@ PROPS = {
         "families": [
             fam("ewise-grad", g(gen.fam_ewise, grads=True), 80, 2000, view="values", rule="distinct (op, broadcast shape pair, number of uses)"),
             fam("ewise-grad-float", g(gen.fam_ewise, mode="float", grads=True), 60, 1500, mode="float", view="values", rule="as above incl. div"),
+            fam("selfviews", g(gen.fam_selfviews), 40, 1000, view="values", rule="an operation applied to an array and another handle of itself (clone, views with a different alignment)"),
             fam("matmul-grad", g(gen.fam_matmul, grads=True), 60, 1500, view="values", rule="distinct (leading dims, sizes, transposes, additive term)"),
             fam("conv-grad", g(gen.fam_conv, grads=True), 150, 2500, view="values", rule="distinct (batch, depth, image, filters, strides); overlapping and uneven strides tagged"),
             fam("reduce-grad", g(gen.fam_reduce, grads=True), 0, 0, view="values", rule="distinct (shape, k) / reshape targets / element maps, non-uniform seeds"),
@@ -134,6 +137,8 @@ PROPS = {
     },
     "C15": {
         "families": [
+            fam("cost", g(gen.fam_cost), 0, 0, view="values", rule="mse on every shape of rank<=3 (4 thorough) with a power-of-two element count"),
+            fam("cost-float", g(gen.fam_cost, mode="float"), 0, 0, mode="float", view="values", rule="mse and cross-entropy on every shape of rank 1..4"),
             fam("forward", g(gen.fam_train, forward_only=True), 150, 4000, view="values", rule="distinct layer stacks evaluated layer by layer"),
             fam("forward-float", g(gen.fam_train, mode="float", forward_only=True), 100, 2500, mode="float", view="values", rule="all activations"),
             fam("train", g(gen.fam_train), 40, 1000, view="values", rule="loss values and model forward"),
